@@ -46,10 +46,97 @@ def _timedelta(I, args, kw):
     return VReal(to_real(I.force(days)) * 86400 + to_real(I.force(secs)))
 
 
+# ---------------------------------------------------------------- concurrent.futures (trusted model)
+
+def _callable_contract(I, fn):
+    fn = I.force(fn)
+    g = B.callable_un_func(I, fn) if isinstance(fn, VUn) else fn
+    if isinstance(g, VFunc) and g.kind == "param" and g.contract is not None:
+        return g
+    raise Unsupported("executor.submit of a callable without a declared function contract")
+
+
+def _tpe_submit(I, args, kw):
+    """ThreadPoolExecutor.submit(fn, *a) -> Future.   ASSUMED CONTRACT (not verified here):
+      * the pool invokes fn(*a) exactly once, some time between this submit and the delivery of the
+        future's result; Future.result() blocks until that invocation has finished and then returns its
+        value or re-raises the exception it raised -- whatever the order in which invocations complete;
+      * the invocation obeys fn's declared function contract, and its outcome does not depend on how the
+        pool interleaves it with the other submitted invocations (task independence / thread safety is a
+        precondition on the tasks, not something decided here).  Ghost `effects_before` of the contract are
+        executed at submission, i.e. they record *submission* order; contracts with post-call ghost effects
+        (whose relative order would be schedule dependent) are rejected.
+    The Future is a value {raised, value, exc_type, exc_msg} describing that outcome; nothing else about
+    timing (done(), as_completed order, ...) is modelled, so code whose result depends on completion order
+    cannot be verified with this model."""
+    if not args:
+        I.raise_exc("TypeError", "submit() missing fn")
+    g = _callable_contract(I, args[0])
+    c = g.contract
+    if c.effects or c.effects_exc:
+        raise Unsupported("executor.submit of a callable whose contract has post-call ghost effects")
+    if c.returns is None:
+        raise Unsupported("executor.submit of a callable without declared return type")
+    env = Env(getattr(I, "ghost_env", None), None)
+    rest = list(args[1:])
+    for i, pn in enumerate(c.params):
+        if i < len(rest):
+            env.set(pn, rest[i])
+        elif pn in kw:
+            env.set(pn, kw[pn])
+    if g.selfv is not None:
+        env.set("self_fn", g.selfv)
+    caller = I.cur_obl_prefix()
+    for nm, src in c.requires:
+        I.path.prove(I.eval_spec(src, env), "%s/submit:%s/pre:%s" % (caller, c.short, nm), "call-pre", where=src)
+    for st in c.effects_before:
+        I.exec_ghost(st, env)
+    rt = I.ver.types.parse(c.returns)
+    ft = future_type(rt)
+    raised = I.path.fresh("fut_raised", z3.BoolSort())
+    conds = [I.eval_spec(cond, env) for _, cond in c.raises_list() if cond is not None]
+    if not c.raises_list():
+        I.path.assume(z3.Not(raised))
+    elif len(conds) == len(c.raises_list()):
+        I.path.assume(z3.Implies(raised, z3.Or(conds)))
+    res = I.fresh_value(rt, "fut_value")
+    for nm, src in c.ensures:
+        I.path.assume(z3.Implies(z3.Not(raised), I.eval_spec(src, env, extra={"result": res})))
+    if c.exc_info is not None:
+        tn, msg = I.eval_spec_value(c.exc_info[0], env), I.eval_spec_value(c.exc_info[1], env)
+    else:
+        tn, msg = VStr(I.path.fresh("fut_exc_type", z3.StringSort())), VStr(I.path.fresh("fut_exc_msg", z3.StringSort()))
+    I.ver.note_assumption("ThreadPoolExecutor.submit/Future.result(): each submitted callable is invoked exactly once, "
+                          "result() returns its value or re-raises its exception independent of completion order; "
+                          "task outcomes do not depend on the interleaving (task independence assumed)")
+    return VRec({"raised": VBool(raised), "value": res, "exc_type": tn, "exc_msg": msg}, ft)
+
+
+def _future_result(I, fut, args, kw):
+    """Future.result(): value of the submitted invocation, or its exception re-raised (see _tpe_submit)"""
+    if I.path.branch(fut.fields["raised"].e):
+        ex = VExc("Exception", [], any_subclass=True)
+        ex.tname = fut.fields["exc_type"]
+        ex.msg = fut.fields["exc_msg"]
+        raise PyRaise(ex)
+    return fut.fields["value"]
+
+
+B.REC_METHODS[("Future_", "result")] = _future_result
+
+
+def _thread_pool_executor(I, args, kw):
+    """ThreadPoolExecutor(...): context manager with submit(); __exit__ waits for all submitted work
+    (no observable effect in this model).  max_workers only bounds concurrency and is not modelled."""
+    noop = VFunc("builtin", "shutdown", impl=lambda I2, a, k: VNone())
+    return B.VExt("ThreadPoolExecutor", {"submit": VFunc("builtin", "submit", impl=_tpe_submit), "shutdown": noop})
+
+
 TABLE = {
     ("numpy", "asarray"): _np_asarray,
     ("datetime", "timedelta"): _timedelta,
     ("datetime", "now"): _nondet_real("datetime.now"),
+    ("concurrent", "ThreadPoolExecutor"): _thread_pool_executor,
     ("math", "sqrt"): _sqrt,
     ("math", "isfinite"): _isfinite,
     ("math", "isnan"): _isnan,
@@ -72,6 +159,12 @@ def external_member(ver, modname, attr):
     if key in (("datetime", "datetime"), ("datetime", "timezone")):
         # class used as a namespace only: datetime.datetime.now(tz) / datetime.timezone.utc
         return VModule("datetime." + attr, None)
+    # abstract file system / OS primitives (os, pathlib, tempfile, time.sleep, random.uniform, errno, json.dumps)
+    from . import fsmodel
+    if key in fsmodel.TABLE:
+        return VFunc("builtin", "%s.%s" % key, impl=fsmodel.TABLE[key])
+    if key in fsmodel.CONSTS:
+        return mk_const(fsmodel.CONSTS[key])
     if key[0] == "collections" and attr == "OrderedDict":
         return VClass("OrderedDict")
     if key[0] in ("typing", "typing_extensions", "__future__", "dataclasses", "abc"):
